@@ -101,6 +101,8 @@ def run_case(case, ctx, res):
     if kind == "cross":
         nvec = 3
     f1, u1, f2, u2, rel = gen.draw_unit_pair(rng, rel)
+    if not gen.float32_safe(osy, (dt1, dt2), (u1, u2)):
+        dt1 = dt2 = "float64"
     shape = gen.draw_shape(rng)
     positive = kind == "unary"
     c1 = [gen.draw_values(rng, shape, dt1, small=True, positive=positive, nonzero=True) for _ in range(nvec)]
